@@ -15,6 +15,10 @@ from .core import AnalysisError
 from .terms import tag
 
 
+class _OutOfRange(AnalysisError):
+    pass
+
+
 class Fold:
     def __init__(self, summ, ex, param: str, rule: str):
         self.summ, self.ex, self.param, self.rule = summ, ex, param, rule
@@ -229,10 +233,29 @@ class Fold:
             a, b = self._eval(t[2], env, sym), self._eval(t[3], env, sym)
             return {'lt': a < b, 'le': a <= b, 'eq': a == b, 'ne': a != b}[t[1]] \
                 if t[1] in ('lt', 'le', 'eq', 'ne') else self._bad(t)
-        if tg == 'and':
-            return all(self._eval(x, env, sym) for x in t[1])
-        if tg == 'or':
-            return any(self._eval(x, env, sym) for x in t[1])
+        if tg in ('and', 'or'):
+            # conjuncts are kept in canonical, not in source order: a lookup that is out of range in one operand is
+            # harmless when another operand decides the outcome (that operand is the guard written in front of it)
+            vals, oob = [], None
+            for x in t[1]:
+                try:
+                    vals.append(bool(self._eval(x, env, sym)))
+                except _OutOfRange as err:
+                    oob = err
+            decided = (False in vals) if tg == 'and' else (True in vals)
+            if decided:
+                return tg == 'or'
+            if oob is not None:
+                raise oob
+            return tg == 'and'
+        if tg == 'sub' and (tag(t[1]) in ('list', 'tuple') or (T.is_const(t[1]) and isinstance(t[1][1], tuple))):
+            items = [x[1] for x in t[1][1]] if tag(t[1]) in ('list', 'tuple') else list(t[1][1])
+            if tag(t[1]) in ('list', 'tuple') and not all(T.is_const(x) for x in t[1][1]):
+                return self._bad(t)
+            i = self._eval(t[2], env, sym)
+            if not isinstance(i, int) or isinstance(i, bool) or not -len(items) <= i < len(items):
+                raise _OutOfRange(self.rule, f'lookup {T.show(t, maxlen=100)} out of range for index {i!r} (IndexError)')
+            return items[i]
         if tg == 'not':
             return not self._eval(t[1], env, sym)
         if tg == 'bin':
